@@ -1170,6 +1170,11 @@ caption_command(vbi_decoder *vbi, struct caption *cc,
 			if (!ch->mode)
 				return;
 
+			/* 47 CFR 15.119 (f)(2)(i), (f)(3)(i): Carriage returns
+			   have no effect in pop-on and paint-on mode. */
+			if (ch->mode == MODE_POP_ON || ch->mode == MODE_PAINT_ON)
+				return;
+
 			last_row = ch->row1 + ch->roll - 1;
 
 			if (last_row > ROWS - 1)
